@@ -26,22 +26,36 @@ abbrev Row := List (Option Val)
 def rowData (r : Row) : Data := fun k => (r[k]?).bind id
 def rowOf (nf : Nat) (d : Data) : Row := (List.range nf).map d
 
-/-- one forward step: every rule whose condition is true in the row, applied -/
+/-- one forward step: every rule whose condition is true in the row, applied (all of its actions,
+or those before the first failing one: `fireData`) -/
 def successors (nf : Nat) (kb : List Rule) (r : Row) : List Row :=
   (kb.filter (fun rule => evalCond (rowData r) rule.cond)).map
-    (fun rule => rowOf nf (applyActsData rule.acts (rowData r)))
+    (fun rule => rowOf nf (fireData rule (rowData r)).2)
+
+/-- `Append` makes the reachable set infinite (arrays only grow): rows in which some array is longer
+than `cap` are not expanded, and the search is then reported incomplete (like running out of fuel) -/
+def rowSmall (cap : Nat) (r : Row) : Bool :=
+  r.all fun c => match c with | some (.arr l) => l.length ≤ cap | _ => true
+
+def maxArr (r : Row) : Nat :=
+  r.foldl (fun m c => match c with | some (.arr l) => max m l.length | _ => m) 0
+
+def hasAppend (kb : List Rule) : Bool :=
+  kb.any fun r => r.more.any fun a => match a with | .append _ _ => true | _ => false
 
 /-- explicit forward search (`Reach`): worklist with a visited list and fuel; returns the visited
-rows and whether the search completed within the fuel -/
-def reachLoop (nf : Nat) (kb : List Rule) : Nat → List Row → List Row → List Row × Bool
-  | 0, _, visited => (visited, false)
-  | _ + 1, [], visited => (visited, true)
-  | fuel + 1, r :: work, visited =>
-    let new := (successors nf kb r).eraseDups.filter (fun x => !visited.contains x && !work.contains x)
-    reachLoop nf kb fuel (work ++ new) (visited ++ new)
+rows and whether the search completed (within the fuel, no row cut off by the array cap) -/
+def reachLoop (nf : Nat) (kb : List Rule) (cap : Nat) : Nat → List Row → List Row → Bool → List Row × Bool
+  | 0, _, visited, _ => (visited, false)
+  | _ + 1, [], visited, ok => (visited, ok)
+  | fuel + 1, r :: work, visited, ok =>
+    let succ := (successors nf kb r).eraseDups
+    let small := succ.filter (rowSmall cap)
+    let new := small.filter (fun x => !visited.contains x && !work.contains x)
+    reachLoop nf kb cap fuel (work ++ new) (visited ++ new) (ok && small.length == succ.length)
 
-def reachSet (nf : Nat) (kb : List Rule) (init : Row) (fuel : Nat := 4000) : List Row × Bool :=
-  reachLoop nf kb fuel [init] [init]
+def reachSet (nf : Nat) (kb : List Rule) (init : Row) : List Row × Bool :=
+  reachLoop nf kb (maxArr init + 4) (if hasAppend kb then 400 else 4000) [init] [init] true
 
 /-- (i) -/
 def goalHolds (goal : Atom) (after : Facts) : Bool := evalAtom (dataOf after) goal
@@ -75,8 +89,11 @@ def allAssignments (kb : List Rule) (before : Facts) : List (Nat × Val) :=
 def consistent (asg : List (Nat × Val)) : Bool :=
   asg.all fun a => asg.all fun b => a.1 != b.1 || a.2 == b.2
 
+/-- every action of every rule is a `Set` -/
+def plainKb (kb : List Rule) : Bool := kb.all fun r => r.more.isEmpty
+
 def isHorn (kb : List Rule) (before : Facts) : Bool :=
-  kb.all (fun r => isConj r.cond) && consistent (allAssignments kb before)
+  kb.all (fun r => isConj r.cond) && plainKb kb && consistent (allAssignments kb before)
 
 /-- no condition literal is changed by the goal-pattern round trip (`reparse`), i.e. no rule
 condition carries an `Integer` literal (finding F-C09b is about exactly those); part of the domain
@@ -119,7 +136,7 @@ clause (ii)); then DFS must report it provable.  Every failure of this clause is
 overwrite interference the search does not recover from (`C09.dfs_complete_needs_consistency`). -/
 
 def interferenceApplies (kb : List Rule) (before : Facts) (goal : Atom) : Bool :=
-  goal.op == .eq && kb.all (fun r => isConj r.cond) && noIntLit kb &&
+  goal.op == .eq && kb.all (fun r => isConj r.cond) && plainKb kb && noIntLit kb &&
     !consistent (allAssignments kb before)
 
 /-- the goal comparison is true in some store the explicit forward search visited -/
